@@ -152,6 +152,58 @@ def literal_dimension(facts, res, roots_only=None):
     return n, hits
 
 
+LIST_BUILDERS = ["getInteractionListForIndex", "getInteractionListForBlock", "getNeighborListForIndex", "getNeighborListForBlock", "getSelfListForBlock",
+                 "getTreeCoordinate", "getNbInteractionsPerCell", "getNbNeighborsPerLeaf", "getNbChildrenPerCell", "getParentIndex", "getChildIndexFromParent", "childPositionFromParent"]
+# what the per-cell and the per-group builders must share: neighbourhood limits, wrap shifts, too-close test, child loop, level guards
+SHARED = ["Limits", "periodicShift", "isTooClose", "boxLimite", "getChildIndexFromParent", "inLevel", "std::abs", "IsPeriodic", "idxChild", "Pos[idxDim]"]
+
+
+def sibling_builders(facts, res):
+    """C11.3: the two ordering classes build their lists the same way (apart from the index conversions
+    hidden in getIndexFromBoxPos / getBoxPosFromIndex), and in each class the per-cell and per-group
+    builders use the same neighbourhood limits, periodic wrap shifts, too-close test and child loop"""
+    import sibling
+    R = "C11.3.sibling-builders"
+    n = 0
+    for name in LIST_BUILDERS:
+        a = [m for m in facts.methods_of(ORDERINGS[0]) if m["name"] == name]
+        b = [m for m in facts.methods_of(ORDERINGS[1]) if m["name"] == name]
+        if len(a) != 1 or len(b) != 1:
+            raise AnalysisBroken("list builder %s not found in both ordering classes" % name)
+        sibling.compare(facts, res, R, a[0], b[0], what="ordering ")
+        n += 1
+    for cls in ORDERINGS:
+        for x, y in (("getInteractionListForIndex", "getInteractionListForBlock"), ("getNeighborListForIndex", "getNeighborListForBlock")):
+            fa = [m for m in facts.methods_of(cls) if m["name"] == x][0]
+            fb = [m for m in facts.methods_of(cls) if m["name"] == y][0]
+            A = sibling.atoms(facts, fa, only=SHARED)
+            B = sibling.atoms(facts, fb, only=SHARED)
+            # the per-group builder wraps the per-cell logic in a loop over the group's cells: compare the atom *texts*
+            # after replacing the cell under consideration by a common token
+            def norm(d, per_block):
+                out = {}
+                for k, v in d.items():
+                    k2 = re.sub(r"param0\.get(Cell|Leaf)SpacialIndex\(loopvar\)", "CELL", k) if per_block else k.replace("param0", "CELL")
+                    k2 = re.sub(r"param1", "LEVEL", k2) if per_block else k2.replace("param1", "LEVEL")
+                    out[k2] = v
+                return out
+            A2, B2 = norm(A, False), norm(B, True)
+            kinds = ("cond", "loop", "assign")
+            A3 = set(k for k in A2 if k.split(" ")[0] in kinds)
+            B3 = set(k for k in B2 if k.split(" ")[0] in kinds)
+            res.instance(R + ".cell-vs-group", "%s::%s vs %s" % (cls, x, y), facts.loc(fb), "%d / %d shared-geometry atoms" % (len(A3), len(B3)))
+            for k in sorted(A3 - B3):
+                res.violation(R + ".cell-vs-group", tbf.rel(facts.path_of(fb)), fb["qname"], ("missing:" + k)[:110], fb["l"][1],
+                              "the per-cell builder %s has `%s` but the per-group builder does not: the two would list different cells" % (x, k[:160]))
+            for k in sorted(B3 - A3):
+                if k.startswith("assign var:interaction.") or "getNbCells" in k or "getNbLeaves" in k or "testSelfInclusion" in k or "getElementFromSpacialIndex" in k or "getStartingSpacialIndex" in k or "getEndingSpacialIndex" in k:
+                    continue   # iteration over the group's cells and in/out-of-group classification exist only in the per-group builder
+                res.violation(R + ".cell-vs-group", tbf.rel(facts.path_of(B2[k])), fb["qname"], ("extra:" + k)[:110], B2[k]["l"][1],
+                              "the per-group builder %s has `%s` which the per-cell builder %s does not" % (y, k[:160], x))
+            n += 1
+    res.floor(R, n, 16, "sibling comparisons")
+
+
 def run(res, tier):
     facts = tbf.scan("core")
     res.units.append("umbrella TU 'core': TbfMortonSpaceIndex, TbfHilbertSpaceIndex, rotation / uniform kernels (closed forms), all non-kernel code (literal-dimension rule)")
@@ -159,6 +211,8 @@ def run(res, tier):
     res.rule("C11.2 parent/child/child-code/upper-bound shifts use the class's Dim; no literal-dimension shift or mask of an index outside ordering classes and 3-D kernels")
     codecs(facts, res)
     shift_width(facts, res)
+    res.rule("C11.3 sibling agreement: Morton and Hilbert list builders / coordinate clamp / parent-child algebra have equal behavioural atoms; per-cell and per-group builders share limits, wrap shifts, too-close test, child loop, level guards")
+    sibling_builders(facts, res)
     n, hits = literal_dimension(facts, res)
     res.instance("C11.2.literal-dimension", "scan", "src/", "%d shift/mask expressions examined outside ordering classes and kernels" % n)
     # positive control (expected count on a healthy tree is zero)
